@@ -450,6 +450,20 @@ def apply_fn_rules(fn, d, log):
     for inj in d["injects"]:
         lines = body.split("\n")
         hits = [i for i, l in enumerate(lines) if re.search(inj["regex"], l) and "//@inj" not in l]
+        if inj["k"] == 0:   # `*`: every match (at least one)
+            if not hits:
+                if inj.get("optional"):
+                    log.append({"rule": "T5/hint-lost", "fn": d["name"], "regex": inj["regex"]})
+                    continue
+                raise ExtractError("anchor /%s/ (all) lost in %s" % (inj["regex"], d["name"]))
+            txt = "\n".join(l + " //@inj" if l.strip() else l for l in inj["lines"])
+            check_injection(txt, "%s /%s/" % (d["name"], inj["regex"]))
+            for h in reversed(hits):
+                at = h + (0 if inj["where"] == "before" else 1)
+                lines[at:at] = txt.split("\n")
+            body = "\n".join(lines)
+            log.append({"rule": "T5/" + inj["where"], "fn": d["name"], "regex": inj["regex"], "k": "*", "matches": len(hits)})
+            continue
         if len(hits) < inj["k"]:
             if inj.get("optional"):
                 log.append({"rule": "T5/hint-lost", "fn": d["name"], "regex": inj["regex"]})
@@ -595,7 +609,7 @@ class Unit:
                         d["loops"][int(sec[1].split()[0])] = buf[:]
                     elif kind in ("before", "after", "hint_before", "hint_after"):
                         k, rx = sec[1].split(None, 1)
-                        d["injects"].append({"where": kind.replace("hint_", ""), "k": int(k), "regex": rx.strip(),
+                        d["injects"].append({"where": kind.replace("hint_", ""), "k": 0 if k == "*" else int(k), "regex": rx.strip(),
                                              "lines": buf[:], "optional": kind.startswith("hint_")})
                 while i < len(lines):
                     s2 = lines[i].strip()
@@ -667,7 +681,14 @@ class Unit:
             while src.t(src.code[j]) != "{":
                 j += 1
             close = src.match_brace(j)
-            fn = {"sig": "fn %s()" % d["name"], "body": src.text[src.code[j][1]:src.code[close][2]],
+            blk = src.text[src.code[j][1]:src.code[close][2]]
+            if d.get("prefix"):
+                # the closure's body is `<prefix> { ... }` (e.g. `move || loop { .. }`): keep the keyword
+                between = " ".join(src.t(t) for t in src.code[hit + len(want):j])
+                if between != d["prefix"]:
+                    raise ExtractError("closure %s: expected `%s` before the block, found `%s`" % (d["name"], d["prefix"], between))
+                blk = "{ " + d["prefix"] + " " + blk + "\n}"
+            fn = {"sig": "fn %s()" % d["name"], "body": blk,
                   "lines": (src.line_of(src.code[hit][1]), src.line_of(src.code[close][2]))}
             self.log.append({"rule": "T9/closure-lift", "fn": d["name"], "from": d["fn"], "open": d["open"]})
             if not d["sig"]:
